@@ -239,6 +239,24 @@ let handle () =
       (match r.ph with SNorm a -> "n " ^ string_of_int (int_of_nat a) | SDisj l -> "d " ^ ids l | SChoice0 l -> "c " ^ ids l | SCons -> "x") ^ " | " ^
       String.concat " " (List.map (fun (s, a) -> sgs s ^ pa a) r.pb) in
     String.concat " ;; " (List.map (fun r -> show (transform r)) rules)
+  | "hdm" ->
+    (* hdm <ini> <fin> <nelems> { <raw> } : Model/HeadDomain.entries - the (atom, lower bound, upper bound) entries of the domain rule of a ground head formula *)
+    let ini = nat () in let fin = nat () in
+    let rec raw () =
+      match next () with
+      | "a" -> RAtom (nat ())
+      | "kw" -> RKw (coq_string (next ()))
+      | "o1" -> let o = coq_string (next ()) in let x = raw () in ROp1 (o, x)
+      | "o2" -> let o = coq_string (next ()) in let x = raw () in let y = raw () in ROp2 (o, x, y)
+      | "on" -> let o = coq_string (next ()) in let n = nat () in let y = raw () in ROpN (o, n, y)
+      | s -> failwith ("raw " ^ s) in
+    let elems = list (fun () -> hbuild ini fin (raw ())) in
+    if List.mem None elems then "error formula cannot be built from the regenerated create_formula table of heads" else
+    (match helems (List.map (function Some x -> x | None -> HConst false) elems) with
+     | None -> "error no element"
+     | Some f ->
+       let rec eqb a b = match a, b with O, O -> true | S x, S y -> eqb x y | _, _ -> false in
+       String.concat " ; " (List.map (fun (a, (lo, hi)) -> Printf.sprintf "%d %d %s" (int_of_nat a) (int_of_z lo) (match hi with None -> "inf" | Some h -> string_of_int (int_of_z h))) (entries eqb f)))
   | "ftr" ->
     (* ftr <nrules> { <part I|A|D|F> <head n a trail | d k a.. | c k a.. | x> <nbody> { <sgn> <at a lead trail | in a | kI | kF> } } :
        Model/FutTransform.transform_program (atoms are numbered in the order of sorted(future_predicates)) *)
